@@ -340,6 +340,86 @@ def make_case(seed, fmt, want_palette_indices=False, config_overrides=None, **sv
     return {"id": f"{fmt}:{seed}", "seed": seed, "fmt": fmt, "svgs": svgs, "config": cfg, "codepoints": cps}
 
 
+def make_tiny_reuse_case(seed, fmt="glyf_colr_1"):
+    """A large donor and a 1:k copy of it filled by a glyph-sized radial gradient whose gradientTransform cannot be
+    folded into the circles: undoing the reuse transform on the gradient overflows int16, so the OverflowError
+    fallback of _migrate_paths_to_ufo_glyphs (gradient wrapped in a PaintTransform) is what gets emitted."""
+    import random
+
+    r = random.Random(seed)
+    vb = 128
+    k = r.choice([40, 50, 64, 80])
+    side = r.choice([80, 96, 100])
+    dx0, dy0 = r.randint(4, vb - side - 4), r.randint(4, vb - side - 4)
+    kind = r.choice(["rect", "tri", "hex"])
+    if kind == "rect":
+        pts = [(0, 0), (side, 0), (side, side * 0.75), (0, side * 0.75)]
+    elif kind == "tri":
+        pts = [(0, side), (side, side), (side * 0.25, 0)]
+    else:
+        pts = [(side * 0.25, 0), (side * 0.75, 0), (side, side * 0.5), (side * 0.75, side), (side * 0.25, side), (0, side * 0.5)]
+
+    def d(ox, oy, sc):
+        return "M" + " L".join(f"{_fmt(ox + x * sc)},{_fmt(oy + y * sc)}" for x, y in pts) + " Z"
+
+    # the small copy sits close to the font origin so that the inverse reuse translation still fits 16.16
+    sx, sy = r.randint(2, 24), r.randint(vb - 40, vb - 8)
+    gt = r.choice(["matrix(1 0 0 0.5 0 0)", "matrix(1 0.3 0 1 0 0)", "matrix(0.5 0 0 1 10 0)", "rotate(30) scale(1 0.6)"])
+    cx, cy, rad = r.randint(40, 90), r.randint(150, 230), r.randint(60, 140)
+    grad = (f'<radialGradient id="g" gradientUnits="userSpaceOnUse" cx="{cx}" cy="{cy}" r="{rad}" gradientTransform="{gt}">'
+            '<stop offset="0" stop-color="#ff0000"/><stop offset="0.5" stop-color="#00ff00"/><stop offset="1" stop-color="#0000ff"/></radialGradient>')
+    svg = (f'<svg xmlns="http://www.w3.org/2000/svg" viewBox="0 0 {vb} {vb}"><defs>{grad}</defs>'
+           f'<path d="{d(dx0, dy0, 1)}" fill="#00aa00"/><path d="{d(sx, sy, 1.0 / k)}" fill="url(#g)"/></svg>')
+    upem = r.choice([1000, 1024, 2048])
+    cfg = {"color_format": fmt, "upem": upem, "ascender": int(upem * 0.95), "descender": -int(upem * 0.25), "width": r.choice([0, upem]),
+           "reuse_tolerance": 0.1, "keep_glyph_names": True, "clipbox_quantization": None}
+    return {"id": f"tiny:{fmt}:{seed}", "seed": seed, "fmt": fmt, "svgs": [svg], "config": cfg, "codepoints": [[0xE000]], "delta": 1.25,
+            "family": "tiny-reuse"}
+
+
+def make_origin_anchored_case(seed, fmt="glyf_colr_0"):
+    """Shapes that are copies of an earlier shape under a linear map ABOUT THE FONT-SPACE ORIGIN (scale 0.5..1.5, small
+    rotation or shear, no translation): the reuse transform is a pure 2x2 matrix close to the identity."""
+    import math
+    import random
+
+    r = random.Random(seed)
+    vb = 128
+    upem = r.choice([1000, 1024, 2048])
+    asc, desc = r.choice([(upem, 0), (int(upem * 0.95), -int(upem * 0.25)), (int(upem * 0.8), -int(upem * 0.2))])
+    oy = vb * asc / (asc - desc)   # svg y of the baseline; with width == 0 and a square viewBox svg x=0 is font x=0
+    n = r.choice([3, 4, 5, 6])
+    rad = r.uniform(24, 40)
+    base = [(rad + rad * 0.9 * math.cos(2 * math.pi * i / n + 0.3), -(rad + rad * 0.9 * math.sin(2 * math.pi * i / n + 0.3))) for i in range(n)]
+    kind = r.choice(["scale", "scale", "nonuniform", "rotate", "shear"])
+    if kind == "scale":
+        k = r.choice([0.6, 0.75, 1.25, 1.4]); m = (k, 0, 0, k)
+    elif kind == "nonuniform":
+        m = (r.choice([0.7, 1.3]), 0, 0, r.choice([0.8, 1.2, 1.0]))
+    elif kind == "rotate":
+        a = math.radians(r.choice([8, 15, -12])); m = (math.cos(a), math.sin(a), -math.sin(a), math.cos(a))
+    else:
+        m = (1, 0, r.choice([0.3, -0.25]), 1)
+    copy = [(m[0] * x + m[2] * y, m[1] * x + m[3] * y) for x, y in base]
+
+    def d(pts):
+        return "M" + " L".join(f"{_fmt(x)},{_fmt(oy + y)}" for x, y in pts) + " Z"
+
+    def inside(pts):
+        return all(0 <= x <= vb and 0 <= oy + y <= vb for x, y in pts)
+
+    if not inside(copy):
+        copy = [(0.6 * x, 0.6 * y) for x, y in base]
+    c1, c2 = r.sample(["#cc0000", "#0044cc", "#00aa00", "#ffaa00", "#222222"], 2)
+    order = [(base, c1), (copy, c2)] if r.random() < 0.7 else [(copy, c2), (base, c1)]
+    svg = (f'<svg xmlns="http://www.w3.org/2000/svg" viewBox="0 0 {vb} {vb}">'
+           + "".join(f'<path d="{d(p)}" fill="{c}"/>' for p, c in order) + "</svg>")
+    cfg = {"color_format": fmt, "upem": upem, "ascender": asc, "descender": desc, "width": 0,
+           "reuse_tolerance": 0.1, "keep_glyph_names": True, "clipbox_quantization": None}
+    return {"id": f"origin:{fmt}:{seed}", "seed": seed, "fmt": fmt, "svgs": [svg], "config": cfg, "codepoints": [[0xE000]],
+            "family": "origin-anchored"}
+
+
 # ------------------------------------------------------------------------------------------
 # Build through the real pipeline
 # ------------------------------------------------------------------------------------------
